@@ -85,8 +85,9 @@ class ThetaRZGrid(StructuredGrid):
         -------
         tuple : i, j, k of given bounds
         """
-        i = int(np.abs(self._bounds[0] - theta0).argmin())
-        j = int(np.abs(self._bounds[1] - rad0).argmin())
+        # the bounds may be plain sequences (e.g. of a grid rebuilt from its stored arguments)
+        i = int(np.abs(np.asarray(self._bounds[0]) - theta0).argmin())
+        j = int(np.abs(np.asarray(self._bounds[1]) - rad0).argmin())
 
         return (i, j, 0)
 
